@@ -33,4 +33,13 @@ def opAddArg (j : Json) : Except String Json := do
   let out := addArgToCall args (← getStr j "name") (← getStr j "value")
   pure <| jobj [("args", jarr (out.map encArg)), ("wf_in", jbool (wfGen args)), ("wf_out", jbool (wfGen out))]
 
+/-- `call_target`: `update_call_target` with or without replacement arguments -/
+def opCallTarget (j : Json) : Except String Json := do
+  let args ← getList j "args" decArg
+  let repl ← getOpt j "replacement" fun r => asList r decArg
+  let func ← getOpt j "func" asStr
+  let out := callTarget (← getStr j "name") args (← getStr j "target") func repl
+  pure <| jobj [("callee", jstr out.1), ("args", jarr (out.2.map encArg)), ("wf_out", jbool (wfGen out.2)),
+                ("old_args", jarr ((callTarget (← getStr j "name") args (← getStr j "target") func repl false).2.map encArg))]
+
 end CM.Driver
